@@ -7,14 +7,14 @@ use crate::eng::*;
 use crate::gen::*;
 use crate::refdl;
 use crate::shrink::{features, shrink};
-use inputlayer::{BooleanSpecializer, CodeGenerator, IQLEngine, IRNode, JoinPlanner, Optimizer, SemiringType};
+use inputlayer::{BooleanSpecializer, CodeGenerator, IQLEngine, IRNode, JoinPlanner, Optimizer, Predicate, SemiringType};
 use serde_json::json;
 use std::collections::BTreeSet;
 
 pub static META: Meta = Meta {
     id: "C05",
     level: "exploration",
-    rule: "plans built by the real IRBuilder (parse + build_ir, no optimisation) from generated programs (joins of 2-4 atoms incl. multi-key and cartesian joins, constants, repeated variables, comparisons, computed columns, negation, multi-clause heads, aggregates, head constants); every non-recursive rule's plan p is executed by CodeGenerator on a database holding the EDB and the reference model of every other relation, and compared with the execution of Optimizer::optimize(p), JoinPlanner::plan_joins(p), BooleanSpecializer::specialize(p) (run with the semiring it selects) and the pipeline join-planning -> specialisation -> optimize; non-trivial = unrewritten result non-empty; distinct = plan (Debug text) + database",
+    rule: "two plan sources: (1) 3 of 4 cases: plans built by the real IRBuilder (parse + build_ir, no optimisation) from generated programs; (2) 1 of 4: typed random plans over Scan/Map/Filter/Join/Antijoin/Distinct/Union with every comparison predicate form, And/Or/True/False, multi-column and cartesian joins, statically empty inputs (False filters, empty unions), depth <= 3, run on 3 random databases; source (1) details: generated programs (joins of 2-4 atoms incl. multi-key and cartesian joins, constants, repeated variables, comparisons, computed columns, negation, multi-clause heads, aggregates, head constants); every non-recursive rule's plan p is executed by CodeGenerator on a database holding the EDB and the reference model of every other relation, and compared with the execution of Optimizer::optimize(p), JoinPlanner::plan_joins(p), BooleanSpecializer::specialize(p) (run with the semiring it selects) and the pipeline join-planning -> specialisation -> optimize; non-trivial = unrewritten result non-empty; distinct = plan (Debug text) + database",
     assumptions: &["denotation = the crate's executor on the unrewritten plan (C01 ties the executor to the reference semantics); plans the unrewritten executor rejects are discarded", "recursive rules are skipped: the engine never runs rewritten plans for them"],
     floor: 50,
     watchdog: (0, 0),
@@ -108,9 +108,172 @@ fn first_broken(p: &GenProgram) -> Option<(String, &'static str, Result<Rows, St
     None
 }
 
+/// Typed random plan over the EDB relations a/2, b/2, c/1, d/3: Scan, Map (projection with
+/// duplication/reordering), Filter (column-constant and column-column comparisons, And/Or, True/False),
+/// Join / Antijoin with 0-2 key pairs (0 = cartesian), Distinct, Union (incl. the empty union).
+/// Returns the plan and its arity. Output schemas follow the executor's convention
+/// (all left columns ++ non-key right columns).
+fn gen_plan(r: &mut crate::rng::Rng, depth: u32, want: Option<usize>, ctr: &mut usize) -> (IRNode, usize) {
+    fn fresh(ctr: &mut usize, n: usize) -> Vec<String> {
+        (0..n)
+            .map(|_| {
+                *ctr += 1;
+                format!("c{}", *ctr)
+            })
+            .collect()
+    }
+    if depth == 0 {
+        let rels: Vec<(&str, usize)> = EDB_RELS.iter().copied().filter(|(_, a)| want.map_or(true, |w| *a == w)).collect();
+        let (rel, ar) = *r.pick(&rels);
+        return (IRNode::Scan { relation: rel.to_string(), schema: fresh(ctr, ar) }, ar);
+    }
+    let pred = |r: &mut crate::rng::Rng, ar: usize, d: u32| -> Predicate {
+        fn go(r: &mut crate::rng::Rng, ar: usize, d: u32) -> Predicate {
+            let c = r.below(ar);
+            let k = r.range(0, 4);
+            match r.below(if d == 0 { 11 } else { 14 }) {
+                0 => Predicate::ColumnEqConst(c, k),
+                1 => Predicate::ColumnNeConst(c, k),
+                2 => Predicate::ColumnGtConst(c, k),
+                3 => Predicate::ColumnLtConst(c, k),
+                4 => Predicate::ColumnGeConst(c, k),
+                5 => Predicate::ColumnLeConst(c, k),
+                6 => Predicate::ColumnsEq(c, r.below(ar)),
+                7 => Predicate::ColumnsLt(c, r.below(ar)),
+                8 => Predicate::ColumnsGe(c, r.below(ar)),
+                9 => Predicate::True,
+                10 => Predicate::False,
+                11 | 12 => Predicate::And(Box::new(go(r, ar, d - 1)), Box::new(go(r, ar, d - 1))),
+                _ => Predicate::Or(Box::new(go(r, ar, d - 1)), Box::new(go(r, ar, d - 1))),
+            }
+        }
+        go(r, ar, d)
+    };
+    match r.below(12) {
+        0 | 1 => {
+            // Map
+            let (input, ar) = gen_plan(r, depth - 1, None, ctr);
+            let out = want.unwrap_or(1 + r.below(3));
+            let projection: Vec<usize> = (0..out).map(|_| r.below(ar)).collect();
+            (IRNode::Map { input: Box::new(input), projection, output_schema: fresh(ctr, out) }, out)
+        }
+        2 | 3 | 4 => {
+            let (input, ar) = gen_plan(r, depth - 1, want, ctr);
+            (IRNode::Filter { input: Box::new(input), predicate: pred(r, ar, 2) }, ar)
+        }
+        5 | 6 | 7 if want.is_none() => {
+            // Join
+            let (left, la) = gen_plan(r, depth - 1, None, ctr);
+            let (right, ra) = gen_plan(r, depth - 1, None, ctr);
+            let nkeys = r.below(3).min(la).min(ra);
+            let mut lk: Vec<usize> = (0..la).collect();
+            let mut rk: Vec<usize> = (0..ra).collect();
+            r.shuffle(&mut lk);
+            r.shuffle(&mut rk);
+            lk.truncate(nkeys);
+            rk.truncate(nkeys);
+            let out = la + ra - nkeys;
+            (IRNode::Join { left: Box::new(left), right: Box::new(right), left_keys: lk, right_keys: rk, output_schema: fresh(ctr, out) }, out)
+        }
+        8 | 9 => {
+            // Antijoin: output = left
+            let (left, la) = gen_plan(r, depth - 1, want, ctr);
+            let (right, ra) = if r.chance(1, 5) {
+                // statically empty right side
+                let (inner, ia) = gen_plan(r, 0, None, ctr);
+                if r.chance(1, 2) { (IRNode::Filter { input: Box::new(inner), predicate: Predicate::False }, ia) } else { (IRNode::Union { inputs: vec![] }, ia) }
+            } else {
+                gen_plan(r, depth - 1, None, ctr)
+            };
+            let nkeys = (1 + r.below(2)).min(la).min(ra);
+            let mut lk: Vec<usize> = (0..la).collect();
+            let mut rk: Vec<usize> = (0..ra).collect();
+            r.shuffle(&mut lk);
+            r.shuffle(&mut rk);
+            lk.truncate(nkeys);
+            rk.truncate(nkeys);
+            (IRNode::Antijoin { left: Box::new(left), right: Box::new(right), left_keys: lk, right_keys: rk, output_schema: fresh(ctr, la) }, la)
+        }
+        10 => {
+            let (input, ar) = gen_plan(r, depth - 1, want, ctr);
+            (IRNode::Distinct { input: Box::new(input) }, ar)
+        }
+        _ => {
+            // Union of 0-3 inputs of one arity
+            let ar = want.unwrap_or(1 + r.below(3));
+            let n = if r.chance(1, 8) { 0 } else { 1 + r.below(3) };
+            let inputs: Vec<IRNode> = (0..n)
+                .map(|_| {
+                    if r.chance(1, 6) {
+                        let (inner, _) = gen_plan(r, 0, Some(ar), ctr);
+                        IRNode::Filter { input: Box::new(inner), predicate: Predicate::False }
+                    } else {
+                        gen_plan(r, depth - 1, Some(ar), ctr).0
+                    }
+                })
+                .collect();
+            (IRNode::Union { inputs }, ar)
+        }
+    }
+}
+
+fn synthetic_case(ctx: &mut Ctx, k: u64) {
+    let mut r = ctx.rng(k);
+    let mut ctr = 0usize;
+    let depth = 1 + r.below(3) as u32;
+    let (plan, _ar) = gen_plan(&mut r, depth, None, &mut ctr);
+    let opts = GenOpts { max_edb: 8, ..GenOpts::default() };
+    let mut found: Option<(refdl::Db, &'static str, Result<Rows, String>, Rows)> = None;
+    for _ in 0..3 {
+        let db = gen_edb(&mut r, &opts);
+        ctx.evals(5);
+        match exec(&plan, &db, None) {
+            Err(_) => {
+                ctx.count("unrewritten_synthetic_plan_rejected");
+                return;
+            }
+            Ok(base) => {
+                if !base.is_empty() {
+                    ctx.nontrivial_str(&format!("{plan:?}|{db:?}"));
+                }
+            }
+        }
+        if let Some((pass, got, base)) = broken_pass(&plan, &db) {
+            found = Some((db, pass, got, base));
+            break;
+        }
+    }
+    ctx.count("synthetic_plans");
+    if k % 400 == 3 {
+        ctx.sample(json!({"case": k, "synthetic_plan": format!("{plan:?}").chars().take(500).collect::<String>()}));
+    }
+    if let Some((db, pass, got, base)) = found {
+        // structural class: which node kinds the plan contains
+        let txt = format!("{plan:?}");
+        let mut kinds: Vec<&str> = ["Antijoin", "Join", "Union", "Filter", "Map", "Distinct"].into_iter().filter(|n| txt.contains(&format!("{n} {{"))).collect();
+        if txt.contains("predicate: False") {
+            kinds.push("False-filter");
+        }
+        if txt.contains("inputs: []") {
+            kinds.push("empty-Union");
+        }
+        let kind = match &got {
+            Ok(g) if g.is_subset(&base) => "rows-lost",
+            Ok(g) if base.is_subset(g) => "rows-added",
+            Ok(_) => "rows-changed",
+            Err(_) => "rewritten-plan-fails",
+        };
+        ctx.violation(k, &format!("C05:{pass}:{kind}:synthetic-plan:{}", kinds.join("+")), format!("pass {pass} changes the result of a synthetic plan"), json!({"plan": txt.chars().take(2500).collect::<String>(), "database": format!("{db:?}"), "pass": pass, "unrewritten_result": rows_json(&base.iter().cloned().collect::<Vec<_>>()), "rewritten_outcome": match got { Ok(g) => rows_json(&g.into_iter().collect::<Vec<_>>()), Err(e) => json!(e) }}));
+    }
+}
+
 pub fn run(ctx: &mut Ctx) {
     let total = ctx.sz(2500, 50_000);
     for k in ctx.cases(total) {
+        if k % 4 == 3 {
+            synthetic_case(ctx, k);
+            continue;
+        }
         let mut r = ctx.rng(k);
         let opts = match k % 3 {
             0 => GenOpts { max_idb: 0, max_body: 4, cmp: 50, arith: 30, agg: 15, union: 60, neg: 20, ..GenOpts::default() },
